@@ -275,10 +275,15 @@ Definition invalid_node : node := Node c_cJSON_Invalid None 0 dzero None [].
 Definition keyed (item : node) (k : bytes) : node :=
   set_key (set_ty item (Z.ldiff (n_ty item) c_cJSON_StringIsConst)) (Some k).
 
+(* the new root after overwrite_item(object, *value): the name is dropped (released only when owned) and
+   cJSON_StringIsConst is cleared:  object->string = NULL; object->type &= ~cJSON_StringIsConst *)
+Definition unnamed (v : node) : node :=
+  set_key (set_ty v (Z.ldiff (n_ty v) c_cJSON_StringIsConst)) None.
+
 (** the part of apply_patch after "Now, just add value to path": (status, object afterwards) *)
 Definition finish_add (object value : node) (pstr : bytes) (cs : bool) : res (Z * node) :=
   match pstr with
-  | [] => Ok (0, set_key value None)          (* overwrite_item(object, *value); object->string = NULL *)
+  | [] => Ok (0, unnamed value)              (* overwrite_item(object, *value); object->string = NULL; flag cleared *)
   | _ =>
       match last_slash pstr 0 None with
       | None => Ok (9, object)                (* child_pointer == NULL *)
@@ -360,7 +365,7 @@ Definition apply_patch (object patch : node) (cs : bool) : res (Z * node * node)
                   | Some (_, v) =>
                       match cJSON_Duplicate v with
                       | None => Ok (8, object, patch)
-                      | Some d => Ok (0, set_key d None, patch)
+                      | Some d => Ok (0, unnamed d, patch)
                       end
                   end
                 else
